@@ -69,6 +69,10 @@ type tcase struct {
 	Rtkbu   map[string][]int `json:"rtkbu"`
 	Primary []string         `json:"primary"`
 	Kbiself []string         `json:"kbiself"`
+
+	// set while playing: ReadEntity resolved an unspecified tie (two equally new binding signatures) the other way than
+	// the model; the rules are still judged on the real objects, the model's predictions are not compared
+	tied bool
 }
 
 var usageBytes = []byte{0, packet.KeyFlagCertify, packet.KeyFlagSign, packet.KeyFlagEncryptCommunications,
@@ -164,7 +168,9 @@ func sigBasedExpired(sig *packet.Signature, now time.Time) bool {
 	return now.After(sig.CreationTime.Add(time.Duration(*sig.KeyLifetimeSecs) * time.Second))
 }
 
-func zeroLife(sig *packet.Signature) bool { return sig.KeyLifetimeSecs != nil && *sig.KeyLifetimeSecs == 0 }
+func zeroLife(sig *packet.Signature) bool {
+	return sig.KeyLifetimeSecs != nil && *sig.KeyLifetimeSecs == 0
+}
 
 func usableSub(sk *openpgp.Subkey, now time.Time, enc bool) bool {
 	s := sk.Sig
@@ -377,6 +383,7 @@ func (r *runner) compareParsed(tc *tcase, b *built, e *openpgp.Entity, where str
 			// choice among equally new ones is not
 			if got.Y == "bind" && ps.Sig.Y == "bind" && got.T == ps.Sig.T {
 				r.c.count("x08_tiebreak_binding_signature", 1)
+				tc.tied = true
 				continue
 			}
 			r.c.violation("model-mismatch:binding-signature-choice"+where, fmt.Sprintf("subkey %d: ReadEntity kept another signature than the specification", i+1), d)
@@ -448,7 +455,7 @@ func (r *runner) selections(tc *tcase, b *built, e *openpgp.Entity, where string
 				for _, f := range judgeSelection(e, key, ok, now, enc) {
 					r.c.violation(f.sig, what+where+": "+f.what, d)
 				}
-				if !in(pred, got) {
+				if !in(pred, got) && !tc.tied {
 					if r.tie(e, b, pred, got, now, enc) {
 						r.c.count("x08_tiebreak_"+what, 1)
 					} else {
@@ -535,7 +542,7 @@ func (r *runner) keysQueries(tc *tcase, b *built, e *openpgp.Entity, kbu map[str
 						}
 					}
 				}
-				if (want[ui] == 1 && !present) || (want[ui] == 0 && present) {
+				if ((want[ui] == 1 && !present) || (want[ui] == 0 && present)) && !tc.tied {
 					r.c.violation("model-mismatch:keys-by-id-usage"+where, fmt.Sprintf("KeysByIdUsage(%s, %s): present=%v, the specification says %d", name, usageNames[ui], present, want[ui]), d)
 				}
 				if want[ui] != 2 {
@@ -599,7 +606,7 @@ func (r *runner) publicAPI(tc *tcase, b *built, e *openpgp.Entity, q predAt, det
 			if hok && algoCanEncrypt(hk.PublicKey.PubKeyAlgo) && single {
 				r.c.violation("K5:encrypt-fails-with-selected-key", "Encrypt failed although encryptionKey selects an encryption-capable key: "+err.Error(), d)
 			}
-			if !hok && errClass(err) != "invalid-argument" {
+			if !hok && single && errClass(err) != "invalid-argument" {
 				r.c.violation("K5:encrypt-error-class", "Encrypt without a usable key failed with "+errClass(err)+" instead of InvalidArgumentError", d)
 			}
 		} else {
@@ -637,7 +644,7 @@ func (r *runner) publicAPI(tc *tcase, b *built, e *openpgp.Entity, q predAt, det
 				}
 			}
 		}
-		if !in(q.Encrypt, got) {
+		if !in(q.Encrypt, got) && !tc.tied {
 			dd := map[string]any{"got": got, "allowed": q.Encrypt}
 			for k, v := range d {
 				dd[k] = v
@@ -702,7 +709,7 @@ func (r *runner) publicAPI(tc *tcase, b *built, e *openpgp.Entity, q predAt, det
 				if !md.IsSigned || md.SignedByKeyId != ops.KeyId || !bytes.Equal(body, message) {
 					r.c.violation("K5:signed-message-details", "ReadMessage reports other details than the message has", d)
 				}
-				if (want == 1 && !found) || (want == 0 && found) {
+				if ((want == 1 && !found) || (want == 0 && found)) && !tc.tied {
 					r.c.violation("model-mismatch:signer-lookup", fmt.Sprintf("ReadMessage: signer found=%v, the specification says %d", found, want), d)
 				}
 				if found && (md.SignedBy.PublicKey.KeyId != ops.KeyId || md.SignatureError != nil) {
@@ -710,7 +717,7 @@ func (r *runner) publicAPI(tc *tcase, b *built, e *openpgp.Entity, q predAt, det
 				}
 			}
 		}
-		if !in(q.Signres, got) {
+		if !in(q.Signres, got) && !tc.tied {
 			dd := map[string]any{"got": got, "allowed": q.Signres}
 			for k, v := range d {
 				dd[k] = v
@@ -834,7 +841,7 @@ func (r *runner) run(tc *tcase, raw json.RawMessage) {
 			r.c.violation("K6:decryption-key-without-encryption-flag", "DecryptionKeys returned a key whose flags allow no encryption", detail)
 		}
 	}
-	if strings.Join(dec, ",") != strings.Join(tc.Dec, ",") {
+	if strings.Join(dec, ",") != strings.Join(tc.Dec, ",") && !tc.tied {
 		r.c.violation("model-mismatch:DecryptionKeys", fmt.Sprintf("DecryptionKeys returned %v, the specification %v", dec, tc.Dec), detail)
 	}
 	if r.deep {
